@@ -28,6 +28,6 @@ print("|---|---|---|---|---|")
 for p in sorted(glob.glob("/verif/seeded/*/meta.json")):
     m = json.load(open(p))
     now = "; ".join("%s: %s" % (c["check"].split()[0], "detected (" + ", ".join(sorted(set(re.findall(r"invariant (C\d+\.[\w-]+)", c["invariants"])))) + ")" if c["exit"] == 1 else "exit %d" % c["exit"]) for c in m["checks"])
-    first = "missed, then strengthened" if m.get("note", "").startswith("first evaluation") else ("caught" if m.get("valid") else "n/a")
+    first = m.get("first_evaluation") or ("missed, then strengthened" if m.get("note", "").startswith("first evaluation") else ("caught" if m.get("valid") else "n/a"))
     if not m.get("valid"): now = "not a valid breaking change on the current head (see note)"
     print(f"| {m['id']} | {m['property']} | {m.get('needs_to_manifest','')[:230]} | {first} | {now} |")
